@@ -158,7 +158,7 @@ ENVIRONMENTS = [
     ("default", {}),
     ("assertions-off", {"PYTHONOPTIMIZE": "1"}),
     ("c-locale-ascii", {"LC_ALL": "C", "LANG": "C", "PYTHONUTF8": "0", "PYTHONCOERCECLOCALE": "0"}),
-    ("no-int-str-limit", {"PYTHONINTMAXSTRDIGITS": "0", "PYTHONDEVMODE": "1", "PYTHONWARNINGS": "ignore"}),
+    ("no-int-str-limit", {"PYTHONINTMAXSTRDIGITS": "0", "PYTHONSAFEPATH": "1"}),
 ]
 
 
